@@ -26,9 +26,9 @@ PROPERTY Termination
 CHECK_DEADLOCK FALSE
 """
 # set to True together with the repair of finding memfd-downgrade-sends-paths (see handshake_NOTES.md)
-REFUSE_MEMFD_DOWNGRADE = False
+REFUSE_MEMFD_DOWNGRADE = True
 # set to True together with the repair of finding late-goroutine-after-timeout
-TIMEOUT_STOPS_GOROUTINE = False
+TIMEOUT_STOPS_GOROUTINE = True
 CFG_KEYS = ['map', 'cproto', 'sgen', 'tr', 'fside', 'fstep', 'fkind']
 TIMEOUT_MS = 1500
 LATE_TIMEOUT_MS = 300
